@@ -3,6 +3,7 @@ package props
 import (
 	"fmt"
 	"math"
+	"reflect"
 	"strings"
 
 	"gorgonia.org/tensor"
@@ -97,6 +98,15 @@ func ewVals(d ref.DT, n int, vs string) (a, b []interface{}, s interface{}) {
 			}
 		}
 		s = d.Code(0)
+	case "edge@0", "edge@1", "edge@2", "edge@3", "edge@4", "edge@5", "edge@6", "edge@7", "edge@8", "edge@9":
+		// the edge operands against one special SCALAR (exponents and factors kernels are tempted to shortcut)
+		e := edgeVals(d)
+		for i := 0; i < n; i++ {
+			a[i] = e[i%len(e)]
+			b[i] = e[(i*5+3)%len(e)]
+		}
+		sp := specialScalars(d)
+		s = sp[int(vs[5]-'0')%len(sp)]
 	case "edge2":
 		e := edgeVals(d)
 		for i := 0; i < n; i++ {
@@ -108,6 +118,30 @@ func ewVals(d ref.DT, n int, vs string) (a, b []interface{}, s interface{}) {
 		panic(vs)
 	}
 	return
+}
+
+// specialScalars: scalar operands that invite shortcuts (0, 1, 2, 3, -1, 1/2, -1/2, 1/3, +Inf, NaN where the type has them).
+func specialScalars(d ref.DT) []interface{} {
+	var fs []float64
+	switch d.Class {
+	case ref.CFloat:
+		fs = []float64{0.5, -0.5, 2, 3, -1, 0, 1, 1.0 / 3, math.Inf(1), math.NaN()}
+	case ref.CComplex:
+		fs = []float64{0.5, 2, 0, 1, -1, 3}
+	case ref.CInt:
+		fs = []float64{0, 1, 2, -1, 3}
+	default:
+		fs = []float64{0, 1, 2, 3}
+	}
+	out := make([]interface{}, len(fs))
+	for i, f := range fs {
+		if d.Class == ref.CComplex {
+			out[i] = reflect.ValueOf(complex(f, 0)).Convert(d.D.Type).Interface()
+		} else {
+			out[i] = reflect.ValueOf(f).Convert(d.D.Type).Interface()
+		}
+	}
+	return out
 }
 
 type ewCase struct {
